@@ -132,14 +132,15 @@ pub fn plan(prop: &str, tier: &str) -> (PropMeta, Vec<Job>) {
                             if quick && expiry_us > 0 && cache != nowait {
                                 continue;
                             }
-                            for threshold in if quick { vec![2] } else { vec![1, 2, 1000] } {
+                            // the control without expiry (nothing may ever be deleted) does not need the whole grid
+                            for threshold in if quick || expiry_us == 0 { vec![2] } else { vec![1, 2, 1000] } {
                                 cfgs.push(NodeCfg { threshold, seg_size: SEG_SMALL, cache, nowait, cache_idx, expiry_us, ..Default::default() });
                             }
                         }
                     }
                 }
             }
-            ("C14", cfgs, if quick { 5 } else { 6 }, if quick { c14_alphabet_quick } else { c14_alphabet })
+            ("C14", cfgs, 5, if quick { c14_alphabet_quick } else { c14_alphabet })
         }
         "C15" => {
             tcp = true;
@@ -148,7 +149,7 @@ pub fn plan(prop: &str, tier: &str) -> (PropMeta, Vec<Job>) {
                 // the largest limit leaves room for "well below the limit" with a closed segment present
                 for mult in if delete_oldest { vec![1u64, 2, 3, 5] } else { vec![1u64, 2, 3] } {
                     for threshold in if quick { vec![2] } else { vec![1, 2, 1000] } {
-                        for cache in if quick { vec![false] } else { vec![false, true] } {
+                        for cache in if quick || threshold != 2 { vec![false] } else { vec![false, true] } {
                             cfgs.push(NodeCfg {
                                 threshold,
                                 seg_size: SEG_SMALL,
@@ -168,11 +169,15 @@ pub fn plan(prop: &str, tier: &str) -> (PropMeta, Vec<Job>) {
             ("C15", cfgs, if quick { 4 } else { 5 }, c15_alphabet)
         }
         "C16" => {
-            let mut cfgs = if quick {
+            let mut cfgs: Vec<NodeCfg> = if quick {
                 // the index cache does not take part in any figure: quick keeps it on
                 corner_cfgs(&[2], &[SEG_SMALL], &[false], &[false, true]).into_iter().filter(|c| c.cache_idx).collect()
             } else {
+                // segments that never roll and the index cache switched off: with threshold 2 only
                 corner_cfgs(&[1, 2, 1000], &[SEG_SMALL, 1_000_000], &[false], &[false, true])
+                    .into_iter()
+                    .filter(|c| c.threshold == 2 || (c.seg_size == SEG_SMALL && c.cache_idx))
+                    .collect()
             };
             for nowait in [false, true] {
                 cfgs.push(NodeCfg { threshold: 2, seg_size: SEG_SMALL, nowait, expiry_us: EXP, ..Default::default() });
@@ -215,6 +220,11 @@ pub fn plan(prop: &str, tier: &str) -> (PropMeta, Vec<Job>) {
             j.prelude = vec![Op::Send(5), Op::Send(1)];
         }
         pj.extend(rolled);
+        if !quick {
+            // one step more, with the alphabet of the quick tier, on the two diagonal corners of cache x confirmation
+            let corner: Vec<NodeCfg> = with_expiry.iter().filter(|c| c.threshold == 2 && c.cache_idx && c.cache == c.nowait).cloned().collect();
+            pj.extend(make_jobs(prop, &corner, &|c| c14_alphabet_quick(c), depth + 1, 1, cap));
+        }
     }
     for j in pj.iter_mut() {
         j.tcp = tcp;
@@ -228,7 +238,7 @@ pub fn plan(prop: &str, tier: &str) -> (PropMeta, Vec<Job>) {
         id,
         level: "model_checking",
         rule: format!(
-            "every history of exactly {depth} operations over the alphabet (for the first configuration: {sample_alpha:?}) is executed against the real server from a fresh copy of a journalled template directory, for each of {} configurations (C14: the expiry configurations two more times, one step shorter, from a state in which the open segment already holds a batch half an expiry old and from a state with a closed first segment and data in the next one); the oracle runs after every step; a state is distinct by (configuration, digest of the data directory, in-memory partition/segment facts)",
+            "every history of exactly {depth} operations over the alphabet (for the first configuration: {sample_alpha:?}) is executed against the real server from a fresh copy of a journalled template directory, for each of {} configurations (C14: the expiry configurations two more times, one step shorter, from a state in which the open segment already holds a batch half an expiry old and from a state with a closed first segment and data in the next one; thorough also: one step more over the quick tier's alphabet on the two diagonal corners of cache x confirmation); the oracle runs after every step; a state is distinct by (configuration, digest of the data directory, in-memory partition/segment facts)",
             cfgs.len()
         ),
         bounds: json!({
